@@ -318,6 +318,12 @@ class Program:
                 st.heap[oid] = ArrObj(kind, arr=z3.Array(name, IntS, kind_sort(kind)), length=n,
                                       origin=origin, name=name, pykind=pyk)
                 return Ref(oid)
+            if desc == 'list:ipair':
+                n = z3.Int(name + '_len')
+                st.assume(n >= 0)
+                oid = st.new_oid('A')
+                st.heap[oid] = ArrObj('ipair', arr=z3.Array(name, IntS, kind_sort('ipair')), length=n, origin=origin, name=name, pykind='list')
+                return Ref(oid)
             if desc in ('cptr:val', 'cptr:int'):
                 kind = desc.split(':')[1]
                 n = z3.Int(name + '_size')
